@@ -106,6 +106,16 @@ def tr_b(n):
         for p in reversed(parts[:-1]):
             out = "(BAnd %s %s)" % (p, out)
         return out
+    if isinstance(n, ast.Compare) and len(n.ops) > 1:
+        # a < b < c  is  (a < b) and (b < c); the middle operands here are plain names / constants (no side effects)
+        operands = [n.left] + list(n.comparators)
+        if not all(isinstance(o, (ast.Name, ast.Constant, ast.UnaryOp)) for o in operands):
+            bad(n, "chained comparison over compound operands")
+        parts = [tr_b(ast.Compare(left=operands[i], ops=[n.ops[i]], comparators=[operands[i + 1]])) for i in range(len(n.ops))]
+        out = parts[-1]
+        for p in reversed(parts[:-1]):
+            out = "(BAnd %s %s)" % (p, out)
+        return out
     if isinstance(n, ast.Compare) and len(n.ops) == 1:
         l, r, op = n.left, n.comparators[0], n.ops[0]
         if isinstance(l, ast.Name) and l.id == ARG_FLOAT:
